@@ -9,6 +9,7 @@ import copy
 import json
 import math
 import os
+import shutil
 import subprocess
 import sys
 
@@ -31,6 +32,7 @@ ASSUMPTIONS = [
 GATES = {
     "nan_invalid_disparity": 1, "two_or_more_bands": 1, "grids": 1, "georeferenced_input": 1, "validation_present": 2,
     "validation_absent": 2, "replayed_configurations": 5, "subprocess_runs": 1, "rasters_compared": 20, "right_input_with_its_own_georeferencing": 1,
+    "save_results_on_synthetic_products": 20, "product_heights_around_128_256_512": 5,
 }
 
 
@@ -40,6 +42,8 @@ def plan(tier, seed):
     for i in range(n):
         specs.append({"name": f"cli-{i}", "work": "cli", "part": i, "n": 10 if tier == "quick" else 60, "timeout": 3000})
     specs.append({"name": "subprocess", "work": "sub", "n": 2 if tier == "quick" else 25, "timeout": 3000})
+    for i in range(2 if tier == "quick" else 6):
+        specs.append({"name": f"save-{i}", "work": "save", "part": i, "n": 24 if tier == "quick" else 120, "timeout": 3000})
     return specs
 
 
@@ -72,8 +76,10 @@ def strip_indicator(cfg):
     return c
 
 
-def build_config(rng, d, directed=False):
+def build_config(rng, d, directed=False, tall=0):
     rows, cols = int(rng.integers(8, 22)), int(rng.integers(10, 26))
+    if tall:
+        rows, cols = tall, int(rng.integers(10, 14))
     nb = 1 if rng.random() < 0.65 else 3
     l, r = gen.stereo_pair(rng, rows, cols, gen.TEXTURES[int(rng.integers(0, 5))], max_shift=2, bands=nb)
     geo = bool(rng.integers(0, 2)) or directed
@@ -121,10 +127,10 @@ def read_tree(out):
     return tree
 
 
-def judge_tree(ctx, case, desc, out, saved_left, saved_right, input_profile, right_profile=None):
+def judge_tree(ctx, case, desc, out, saved_left, saved_right, input_profile, right_profile=None, expect_cfg=True):
     tree = read_tree(out)
     validation = desc["validation"]
-    expect = {"left_disparity.tif", "left_validity_mask.tif", "cfg/config.json"}
+    expect = {"left_disparity.tif", "left_validity_mask.tif"} | ({"cfg/config.json"} if expect_cfg else set())
     if saved_left is not None and "confidence_measure" in saved_left:
         expect.add("left_confidence_measure.tif")
     if validation:
@@ -181,13 +187,72 @@ def arrays_of(tree):
     return out
 
 
+SAVE_SIZES = [1, 2, 3, 7, 31, 64, 100, 127, 128, 129, 130, 255, 256, 257, 258, 385, 511, 512, 513]
+
+
+def _save(case, ctx):
+    """save_results on synthetic products of many sizes (sizes around the usual strip / block sizes of raster writers)."""
+    import xarray as xr
+    from affine import Affine
+    from pandora import common
+
+    rng = ctx.rng("save", case["part"], case["i"])
+    k = case["part"] * 1000 + case["i"]
+    rows = SAVE_SIZES[k % len(SAVE_SIZES)]
+    cols = SAVE_SIZES[(k // len(SAVE_SIZES) + 3 * case["part"]) % len(SAVE_SIZES)] if case["i"] % 3 == 0 else int(rng.integers(1, 40))
+    n_ind = int(rng.integers(0, 4))
+    validation = bool(rng.integers(0, 2))
+    geo = bool(rng.integers(0, 2))
+
+    def product(origin):
+        d = (rng.integers(-40, 41, (rows, cols)) * 0.25).astype(np.float32)
+        d[rng.random((rows, cols)) < 0.05] = np.nan
+        ds = xr.Dataset({"disparity_map": (["row", "col"], d),
+                         "validity_mask": (["row", "col"], rng.integers(0, 4096, (rows, cols)).astype(np.uint16))},
+                        coords={"row": np.arange(rows), "col": np.arange(cols)})
+        if n_ind:
+            c = rng.normal(0, 3, (rows, cols, n_ind)).astype(np.float32)
+            c[rng.random(c.shape) < 0.05] = np.nan
+            c[rng.random(c.shape) < 0.01] = np.inf
+            ds.coords["indicator"] = [f"confidence_from_x{j}" for j in range(n_ind)]
+            ds["confidence_measure"] = xr.DataArray(c, dims=["row", "col", "indicator"])
+        ds.attrs = {"crs": "EPSG:32631" if geo else None, "transform": Affine(0.5, 0.0, origin[0], 0.0, -0.5, origin[1]) if geo else None}
+        return ds
+
+    left = product((500000.0, 4800000.0))
+    right = product((500012.5, 4800003.0)) if validation else xr.Dataset()
+    if geo:
+        import rasterio
+        left.attrs["crs"] = rasterio.crs.CRS.from_string("EPSG:32631")
+        if validation:
+            right.attrs["crs"] = rasterio.crs.CRS.from_string("EPSG:32631")
+    out = os.path.join(ctx.workdir, f"save{case['part']}_{case['i']}")
+    desc = {"work": "save_results on synthetic products", "shape": [rows, cols], "indicators": n_ind, "validation": validation, "georef": geo}
+    lsnap, rsnap = gen.deep_copy_ds(left), gen.deep_copy_ds(right)
+    import warnings
+    with warnings.catch_warnings():
+        warnings.simplefilter("ignore")
+        common.save_results(left, right, out)
+    ctx.case(["save", rows, cols, n_ind, validation, geo], nontrivial=n_ind > 0)
+    ctx.gate("save_results_on_synthetic_products")
+    ctx.gate("product_heights_around_128_256_512", int(rows in (127, 128, 129, 255, 256, 257, 511, 512, 513)))
+    prof_l = {"crs": left.attrs["crs"], "transform": left.attrs["transform"]}
+    prof_r = {"crs": right.attrs.get("crs"), "transform": right.attrs.get("transform")}
+    judge_tree(ctx, case, desc, out, lsnap, rsnap if validation else None, prof_l, prof_r, expect_cfg=False)
+    shutil.rmtree(out, ignore_errors=True)
+
+
 def run_case(case, ctx):
     import pandora
     from pandora import check_configuration, common
 
+    if case["work"] == "save":
+        return _save(case, ctx)
+
     rng = ctx.rng(case["work"], case["part"], case["i"])
     d = os.path.join(ctx.workdir, f"{case['work']}{case['i']}")
-    user, desc = build_config(rng, d, directed=(case["i"] == 0 and case["work"] == "cli"))
+    user, desc = build_config(rng, d, directed=(case["i"] == 0 and case["work"] == "cli"),
+                              tall=[129, 257, 128][case["part"] % 3] if (case["i"] == 1 and case["work"] == "cli") else 0)
     cfg_path = os.path.join(d, "user.json")
     os.makedirs(d, exist_ok=True)
     with open(cfg_path, "w") as f:
